@@ -453,7 +453,7 @@ Theorem validator_feed_below_demand_ok : forall i c a fd bd include_fat include_
 Proof.
   intros i c a fd bd incf incp H NN SW Lf Lb Hf Hb.
   destruct (validator_feed_link i c a H) as (L1 & L2 & LK).
-  unfold assert_feed_used_below_feed_demand, assert_biofuels_used_below_biofuels_demand.
+  unfold assert_feed_used_below_feed_demand, assert_biofuels_used_below_biofuels_demand, assert_used_below_demand.
   destruct (incp || incf); [split; reflexivity|]. split.
   - apply (used_below_demand_ok _ _ (NM i) Lf).
     + unfold reduced_correct_units, lscale. rewrite !map_length. exact L1.
